@@ -137,6 +137,42 @@ CHECKS['C06'] = dict(
     note='Termination is a horizon on counted scandir calls (never wall-clock); link-following configurations are run '
          'only on trees without directory cycles.')
 
+_FSX = ('explicit-state exploration of file-system states (all trees reachable by <= K create-operations, de-duplicated, '
+        'plus deeper seed states), real library run on the materialised tree in every state; ')
+CHECKS['C12'] = dict(
+    level='exploration', engine='FSX', design='6 C12',
+    technique=_FSX + 'well-formedness predicates on every returned element and multiset equality across five ways of giving the root',
+    text='Every explored state x FS patterns (relative, absolute, ./ ../ // trailing /) and BRACE/SPLIT/NEGATE lists x 10 flag '
+         'sets over MARK, NODIR, GLOBSTAR, DOTGLOB, SCANDOTDIR, MATCHBASE: each element exists, is spelled relative/absolute '
+         'like its pattern, has a trailing separator exactly when required, is no directory under NODIR; iglob == glob; same '
+         'multiset for root_dir str/bytes/Path, dir_fd and cwd.',
+    note='Existence and directory-ness come from the state model; every chunk in a fresh process (replayable history).')
+CHECKS['C13'] = dict(
+    level='exploration', engine='FSX', design='6 C13',
+    technique=_FSX + 'expected value assembled from real single-pattern glob results and the single-pattern matcher',
+    text='Every explored state (incl. an a/A/b layer for IGNORECASE) x ordered lists of 1..2 (thorough 3) overlapping pool '
+         'patterns x 0..2 exclusions x presentations (exclude=, inline, SPLIT, BRACE, NEGATEALL, pathlib): set == union minus '
+         'exclusions, no identical path twice, NOUNIQUE == in-order concatenation.',
+    note='Sub-oracles: single-pattern glob() and globmatch(); IGNORECASE compared modulo case folding.')
+CHECKS['C14'] = dict(
+    level='exploration', engine='FSX', design='6 C14',
+    technique=_FSX + 'independent recursive walk of the state model with per-file / per-directory predicates written from '
+              'the statement',
+    text='Every explored state x (file pattern, exclude pattern) pairs from pools with |, negations, groups, braces, path '
+         'patterns and the empty pattern x a pairwise-covering family of subsets of the 11 WcMatch flags: result multiset and '
+         'get_skipped() equal the reference walk.',
+    note='List logic (BRACE, |, negation, everything-except) is re-implemented in the oracle; single pieces use the '
+         'library\'s single-pattern matcher.')
+CHECKS['C16'] = dict(
+    level='exploration', engine='FSX', design='6 C16',
+    technique=_FSX + 'differential comparison of pathlib entry points with glob.glob / glob.globmatch and with the reference '
+              'walker (implicit recursive prefix)',
+    text='Every explored state x FS patterns x 9 flag sets x every path object naming an entry: Path.glob == glob.glob joined '
+         'on the root, rglob vs reference with implicit leading recursive segment, match(REALPATH) <=> membership in rglob, '
+         'globmatch/full_match == glob.globmatch on the path string (directory slash for concrete paths), ValueError for '
+         'absolute patterns and foreign-platform REALPATH, user FORCEWIN/FORCEUNIX ignored, no duplicates.',
+    note='Patterns whose matches pathlib re-spells (., .., //, SCANDOTDIR) are outside the match<=>rglob clause.')
+
 PENDING = {}
 
 
